@@ -60,6 +60,18 @@ fn main() {
         println!("INCONCLUSIVE property={} reason=model-self-test {}", prop, e);
         std::process::exit(3);
     }
+    if prop == "C17" {
+        // C17's observed execution is the compiler: only generate the programs here
+        let dir = out.clone().unwrap_or_else(|| "/verif/work/c17".to_string());
+        let repo = std::env::var("IREF_REPO").unwrap_or_else(|_| "/repo".to_string());
+        match mon::c17::generate_crates(&dir, tier == Tier::Thorough, seed, &repo) {
+            Ok(()) => std::process::exit(0),
+            Err(e) => {
+                println!("INCONCLUSIVE property=C17 reason=generator {}", e);
+                std::process::exit(3);
+            }
+        }
+    }
     let reg = mon::registry();
     let Some(m) = reg.iter().find(|m| m.id == prop) else {
         println!("INCONCLUSIVE property={} reason=no-such-monitor", prop);
